@@ -17,6 +17,9 @@ pub struct Prog {
     pub with_readonly: bool,
     /// start with `set -m` (job control on: pipelines and subshells get their own process groups)
     pub monitor: bool,
+    /// feed the script through standard input (a regular file) while standard error is a terminal:
+    /// the shell must still be non-interactive
+    pub stdin_tty_stderr: bool,
 }
 
 pub const TRAP_ID: u32 = 999_999;
@@ -175,7 +178,17 @@ fn check_inner(p: &Prog, text: &str, strategy: Strategy, opts: Opts) -> Verdict 
         });
     }
     // implementation
-    let mut cfg = vsh::VCfg::script(text);
+    let mut cfg = if p.stdin_tty_stderr {
+        let mut c = vsh::VCfg::stdin_script(text);
+        c.setup = Some(Box::new(|st| {
+            if let Ok(f) = st.file_system.get("/dev/stderr") {
+                f.borrow_mut().body = yash_env::system::r#virtual::FileBody::Terminal { content: Vec::new() };
+            }
+        }));
+        c
+    } else {
+        vsh::VCfg::script(text)
+    };
     cfg.strategy = strategy;
     cfg.extra = vsh::v_probes();
     cfg.keep_state = compare_execs;
@@ -387,6 +400,7 @@ pub fn drive(
                 trap,
                 with_readonly: cfg.errors || cfg.vars,
                 monitor: cfg.errors && rng.chance(25),
+                stdin_tty_stderr: cfg.errors && rng.chance(15),
             };
             let text = render(&p, &mut rng);
             for k in 0..=schedules {
